@@ -58,7 +58,7 @@ fn only_worker(world: &World, w: u64) -> World {
         .iter()
         .filter(|op| match op {
             Op::Spawn { w: x, .. } | Op::Kill { w: x } | Op::Expand { w: x, .. } | Op::Frag { w: x, .. } => *x == w,
-            Op::Clock { .. } | Op::Pid { .. } | Op::FsWipe => true,
+            Op::Clock { .. } | Op::Pid { .. } | Op::FsWipe | Op::FsTear { .. } => true,
         })
         .cloned()
         .collect();
@@ -319,7 +319,7 @@ pub fn minimise(full: &Scenario, a: &Obs, b: &Obs, budget: usize) -> Option<Mini
                             || !match kind {
                                 0 => matches!(op, Op::Clock { .. }),
                                 1 => matches!(op, Op::Pid { .. }),
-                                2 => matches!(op, Op::FsWipe),
+                                2 => matches!(op, Op::FsWipe | Op::FsTear { .. }),
                                 _ => matches!(op, Op::Frag { .. }),
                             }
                     });
